@@ -70,7 +70,8 @@ structure Obj where
   shape : String
   box : Box
   olabel : Option Box     -- rectangle of an outside label (as `TraceToShape` computes it)
-  oicon : Option Box      -- rectangle of an outside icon
+  oicon : Option Box      -- rectangle of an outside icon, as drawn (`GetIconSize`)
+  oiconMax : Option Box   -- the same icon at MAX_ICON_SIZE: the rectangle `TraceToShape` uses for a *source*
   is3d : Bool
   multiple : Bool
   inSeq : Bool            -- some ancestor is a sequence diagram
@@ -137,6 +138,47 @@ def endsOnExtent (tol : Rat) (o : Obj) (perim : String) (p : Pt) : Bool :=
   else
     ((extentRects o).any fun r => decide (r.containsTol tol p)) &&
       (perim == "yes" || (attachmentRects o).any fun r => decide (r.onBorder tol p))
+
+/-- distance of `p` from the border of `b`: outside the box the larger of the two axis distances, inside it the
+    distance to the nearest side -/
+def Box.borderDist (b : Box) (p : Pt) : Rat :=
+  let dx := max (b.x - p.x) (max (p.x - b.right) 0)
+  let dy := max (b.y - p.y) (max (p.y - b.bottom) 0)
+  if dx > 0 ∨ dy > 0 then max dx dy
+  else min (min (p.x - b.x) (b.right - p.x)) (min (p.y - b.y) (b.bottom - p.y))
+
+/-- distance of `p` from the nearest border of the rectangles of the visual extent -/
+def extentDist (o : Obj) (p : Pt) : Rat :=
+  match (extentRects o).map (fun r => r.borderDist p) with
+  | [] => 0
+  | d :: ds => ds.foldl min d
+
+/-- where `p` lies relative to the shape's own box: "inside"; "left" / "right" / "top" / "bottom" when it faces
+    that side (the other coordinate is strictly within the side, more than 1 px from its ends); "corner" otherwise
+    (beyond two sides, or on the prolongation of a side) -/
+def sideOf (o : Obj) (p : Pt) : String :=
+  let b := o.box
+  let inX := decide (b.x + 1 < p.x ∧ p.x < b.right - 1)
+  let inY := decide (b.y + 1 < p.y ∧ p.y < b.bottom - 1)
+  let outL := decide (p.x < b.x)
+  let outR := decide (b.right < p.x)
+  let outT := decide (p.y < b.y)
+  let outB := decide (b.bottom < p.y)
+  if !(outL || outR || outT || outB) then "inside"
+  else if inY && outL then "left"
+  else if inY && outR then "right"
+  else if inX && outT then "top"
+  else if inX && outB then "bottom"
+  else "corner"
+
+/-- the point sits on the border of the MAX_ICON_SIZE rectangle of an outside icon (or its decorated copy):
+    `TraceToShape` cuts a route at that rectangle for a source while the icon is drawn smaller -/
+def onMaxIcon (tol : Rat) (o : Obj) (p : Pt) : Bool :=
+  match o.oiconMax with
+  | none => false
+  | some r =>
+    let (dx, dy) := modifierOffsets o
+    decide (r.onBorder tol p) || decide ((r.translate dx (-dy)).onBorder tol p)
 
 /-- C17: sizes are non-negative (finiteness is decided when the exact rationals are read: a NaN or an infinity
     is not a rational) and routes have at least two points -/
